@@ -530,8 +530,10 @@ def fuzz_arm(prop, tier, seed, cov, violations, inconcl, notes, arms_used):
             if k.get('property') == prop and k.get('status') == 'open':
                 f.write(k['key'] + '\n')
     # inputs per process; the judges of C01/C16/C17 make 50-100 library calls per input
-    base = {'C01': 200000, 'C16': 120000, 'C17': 400000, 'C02': 500000, 'C04': 500000}.get(prop, 1500000)
-    runs = int(float(os.environ.get('VERIF_FUZZ_RUNS', str(base if tier == 'thorough' else base // 6))) * float(os.environ.get('VERIF_SCALE', '1')))
+    # inputs per process: (quick, thorough). The judges of C01/C16/C17 make 50-100 library calls per input, the others a handful.
+    budget = {'C01': (35000, 250000), 'C16': (20000, 150000), 'C17': (70000, 500000), 'C02': (100000, 700000), 'C04': (100000, 700000),
+              'C03': (300000, 2000000), 'C05': (400000, 2500000)}.get(prop, (1000000, 5000000))
+    runs = int(float(os.environ.get('VERIF_FUZZ_RUNS', str(budget[1] if tier == 'thorough' else budget[0]))) * float(os.environ.get('VERIF_SCALE', '1')))
     nproc = V.NCPU
     env = dict(os.environ, VERIF_FUZZ_PROP=prop, VERIF_FUZZ_KNOWN=known, ASAN_OPTIONS=ASAN_OPTS + ':abort_on_error=1', UBSAN_OPTIONS='print_stacktrace=0')
     # seed corpus is written by the first process start
